@@ -94,6 +94,11 @@ def gen(rng, tier, index):
         scene["gravity"] = [0.0, 0.0, -9.81]
     if scene.get("gravity") is None and not scene["laws"]:
         scene["gravity"] = [0.0, 0.0, -9.81]
+    # an elastic spring is conservative in either formulation: force form, or compliance form (its force then enters
+    # through W_c la_c, whose direction changes with the configuration)
+    for lw in scene["laws"]:
+        if lw["type"] == "spring" and rng.random() < 0.5:
+            lw["compliance"] = True
     if rng.random() < 0.3:
         # released from rest (the most common way to start a pendulum)
         for b in scene["bodies"]:
@@ -356,6 +361,7 @@ def execute(plan, out, log):
             bool(plan.get("crash_at")),
             tuple(sorted(j["type"] for j in sc["joints"])),
             bool(sc["laws"]),
+            any(l.get("compliance") for l in sc["laws"]),
             any(j.get("loop") for j in sc["joints"]),
             tuple(sorted(b["kind"] for b in sc["bodies"])),
             bool(sc.get("from_rest")),
